@@ -25,6 +25,7 @@ func init() {
 			{"C02.R4b", "q", "per-chunk replay start is fresh for every chunk", c02r4b},
 			{"C09.R4", "q", "shared: block size agreement of writer and rebuild scanner", c09r4},
 			{"C02.R6", "q", "hintMgr.close dumps every chunk's last split", c02r6},
+			{"C02.R7", "q", "tree-dump id ordering and hint reader start", c02r7},
 			{"C14.R7", "q", "shared: a split's recorded data size covers only accepted records", c14r7},
 		},
 	})
@@ -627,4 +628,65 @@ func c02r4b(c *Ctx) {
 	})
 	c.check(fresh && okCond, R, f.Key+": replay start index fresh per chunk, Split+1 only for the tree's own chunk", c.pos(skip), "declared inside the chunk loop",
 		"the index of the first hint split to replay is carried over from one chunk to the next (declared outside the loop / reset skipped by the `continue`): for chunks after the tree dump's own chunk some or all hint splits are not replayed into the loaded tree, so the restart serves the state of the older tree dump")
+}
+
+// c02r7: the (chunk, split) order that decides which tree dump is newest and
+// which splits still have to be replayed; the hint reader starts after the header.
+func c02r7(c *Ctx) {
+	const R = "C02.R7"
+	if f := c.fn(R, "store.HintID.isLarger"); f != nil {
+		info := f.Info()
+		ck, sp := f.Param(0), f.Param(1)
+		gtC, eqC, geS := false, false, false
+		ast.Inspect(f.Decl.Body, func(x ast.Node) bool {
+			if be, ok := x.(*ast.BinaryExpr); ok {
+				switch {
+				case be.Op == token.GTR && prog.ObjOf(info, be.X) == ck && prog.IsField(info, "store.HintID.Chunk")(prog.Unparen(be.Y)):
+					gtC = true
+				case be.Op == token.EQL && prog.ObjOf(info, be.X) == ck && prog.IsField(info, "store.HintID.Chunk")(prog.Unparen(be.Y)):
+					eqC = true
+				case be.Op == token.GEQ && prog.ObjOf(info, be.X) == sp && prog.IsField(info, "store.HintID.Split")(prog.Unparen(be.Y)):
+					geS = true
+				}
+			}
+			return true
+		})
+		c.check(gtC && eqC && geS, R, f.Key+": (ck > Chunk) || (ck == Chunk && sp >= Split)", f.Pos(), "lexicographic on (chunk, split)", "the order on hint ids is no longer lexicographic on (chunk, split) with `>=` on the split: the newest tree dump is not recognised, or a dump is considered to cover splits it does not")
+	}
+	if f := c.fn(R, "store.Bucket.dumpHtree"); f != nil {
+		info := f.Info()
+		ok := false
+		for _, d := range f.CallsTo("store.HTree.dump") {
+			for _, a := range f.GuardsAt(d.Expr) {
+				if a.Op == token.ILLEGAL && !a.Neg {
+					if call, isC := prog.Unparen(a.X).(*ast.CallExpr); isC && prog.CalleeKey(info, call) == "store.HintID.isLarger" {
+						ok = true
+					}
+				}
+			}
+		}
+		idOK := false
+		ast.Inspect(f.Decl.Body, func(x ast.Node) bool {
+			if as, isA := x.(*ast.AssignStmt); isA && len(as.Lhs) == 1 && prog.IsField(info, "store.BucketStat.TreeID")(as.Lhs[0]) {
+				for _, s := range f.SourcesAt(as.Rhs[0], as) {
+					if strings.HasSuffix(s.Field, "maxDumpedHintID") || (s.Expr != nil && prog.MentionsField(info, s.Expr, "store.hintMgr.maxDumpedHintID")) {
+						idOK = true
+					}
+				}
+			}
+			return true
+		})
+		c.check(ok && idOK, R, f.Key+": dump named after the last dumped hint split", f.Pos(), "TreeID = hints.maxDumpedHintID, only when larger", "the tree dump is not labelled with the id of the last hint split that was dumped: on restart splits are skipped (state lost) or the dump is taken for older than it is")
+	}
+	if f := c.fn(R, "store.hintFileReader.open"); f != nil {
+		info := f.Info()
+		okOff := false
+		ast.Inspect(f.Decl.Body, func(x ast.Node) bool {
+			if as, isA := x.(*ast.AssignStmt); isA && len(as.Lhs) == 1 && prog.IsField(info, "store.hintFileReader.offset")(as.Lhs[0]) && prog.ConstObjName(info, as.Rhs[0]) == "store.HINTFILE_HEAD_SIZE" {
+				okOff = true
+			}
+			return true
+		})
+		c.check(okOff && len(f.CallsTo("store.hintFileMeta.Loads")) == 1, R, f.Key+": header loaded, logical offset starts after it", f.Pos(), "Loads(h); offset = HINTFILE_HEAD_SIZE", "the hint reader does not start its logical offset right after the header it loaded")
+	}
 }
